@@ -3,6 +3,7 @@ use crate::{
     passes::{CfgError, GenerationPass},
 };
 use std::collections::HashSet;
+use std::rc::Rc;
 
 use super::HasGenKillInfo;
 
@@ -10,9 +11,8 @@ pub struct LivenessPass;
 impl GenerationPass for LivenessPass {
     #[allow(clippy::too_many_lines)]
     fn run(cfg: &mut crate::cfg::Cfg) -> Result<(), Box<CfgError>> {
+        // LIVENESS (backward, grows from nothing to the least fixed point)
         let mut changed = true;
-        #[allow(clippy::mutable_key_type)]
-        let mut visited = HashSet::new();
         while changed {
             #[cfg(riscv_analysis_verif)]
             crate::verif::tick("liveness-sweep");
@@ -34,6 +34,74 @@ impl GenerationPass for LivenessPass {
                     let func_exit_live_in = (node.live_out()) | func.exit().live_in();
                     changed |= func.exit().set_live_in(func_exit_live_in);
 
+                    // live_in[n] = (live_in[F_entry] & argument-registers) U (live_out[n] - kill[n])
+                    // kill[n] = caller-saved
+                    let live_in_temp = node.live_out() - node.kill_reg();
+                    let live_in = (func.entry().live_out() & Register::argument_set())
+                        | live_in_temp
+                        | node.gen_reg();
+
+                    changed |= node.set_live_in(live_in);
+                } else if node.is_ecall() {
+                    let (args, _) = node.known_ecall_signature().unwrap_or_default();
+
+                    // live_in[n] = (live_out[n] - caller-saved) U ecall_args U ecall_ins
+                    // ecall_args = X17 (a7) in every case U inputs to the ecall if known by available value analysis, otherwise empty
+                    let live_in = (node.live_out() - Register::caller_saved_set())
+                        | Register::ecall_always_argument_set()
+                        | args;
+                    changed |= node.set_live_in(live_in);
+                } else if node.is_return() {
+                    // live_in[n] = live_in[n] U gen[n]
+                    let live_in = node.live_in() | node.gen_reg();
+                    changed |= node.set_live_in(live_in);
+                } else {
+                    // live_in[n] = gen[n] U (live_out[n] - kill[n])
+                    let live_in = (node.live_out() - node.kill_reg()) | node.gen_reg();
+                    changed |= node.set_live_in(live_in);
+                }
+            }
+        }
+
+        // UNCONDITIONALLY DEFINED REGISTERS (forward, on every path: the
+        // greatest fixed point)
+        //
+        // The liveness above is final here, so that what a function entry
+        // contributes no longer moves. A predecessor that has not been
+        // computed yet in this run does not take part in the intersection,
+        // and once a node has been computed its set only shrinks: the sets
+        // come down from "everything" and cannot chase each other around a
+        // cycle of the graph.
+        #[allow(clippy::mutable_key_type)]
+        let mut visited = HashSet::new();
+        #[allow(clippy::mutable_key_type)]
+        let mut seeds = HashSet::new();
+        let mut changed = true;
+        while changed {
+            #[cfg(riscv_analysis_verif)]
+            crate::verif::tick("liveness-sweep");
+            changed = false;
+            for node in cfg.iter() {
+                // AND u_def[s] for all computed s in prev[n]
+                let from_prevs = node
+                    .prevs()
+                    .clone()
+                    .into_iter()
+                    .filter(|x| visited.contains(x))
+                    .map(|x| x.u_def())
+                    .reduce(|acc, x| acc & x);
+                // Nothing to go on yet: wait for a predecessor, unless
+                // there is none to wait for.
+                let waits = from_prevs.is_none()
+                    && !node.is_function_entry()
+                    && !node.prevs().is_empty()
+                    && !seeds.contains(&node);
+                if waits {
+                    continue;
+                }
+                let from_prevs = from_prevs.unwrap_or_default();
+
+                let u_def = if let Some((func, _)) = node.calls_to_from_cfg(cfg) {
                     // u_def[n] = (AND u_def[s] for all s in prev[n]) - kill[n] | (u_def[F_exit] AND return-registers)
                     // kill[n] = caller-saved
                     // NOTE: we use the UDEF_f because the udefs are all "candidates"
@@ -43,91 +111,42 @@ impl GenerationPass for LivenessPass {
                     // a garbage value.
                     // TLDR: udef -> return values are a safeguard that the value
                     // has to come from the function.
-                    let u_def = (node
-                        .prevs()
-                        .clone()
-                        .into_iter()
-                        .filter(|x| visited.contains(x))
-                        .map(|x| x.u_def())
-                        .reduce(|acc, x| acc & x)
-                        .unwrap_or_default()
-                        - Register::caller_saved_set())
-                        | (func.exit().u_def() & Register::return_set());
-
-                    // live_in[n] = (live_in[F_entry] & argument-registers) U (live_out[n] - kill[n])
-                    // kill[n] = caller-saved
-                    let live_in_temp = node.live_out() - node.kill_reg();
-                    let live_in = (func.entry().live_out() & Register::argument_set())
-                        | live_in_temp
-                        | node.gen_reg();
-
-                    changed |= node.set_live_in(live_in);
-                    changed |= node.set_u_def(u_def);
+                    let from_func = if visited.contains(&*func.exit()) {
+                        func.exit().u_def() & Register::return_set()
+                    } else {
+                        Register::return_set()
+                    };
+                    (from_prevs - Register::caller_saved_set()) | from_func
                 } else if node.is_ecall() {
-                    let (args, rets) = node.known_ecall_signature().unwrap_or_default();
-
+                    let (_, rets) = node.known_ecall_signature().unwrap_or_default();
                     // u_def[n] = (AND u_def[s] for all s in prev[n]) - caller-saved | ecall_returns
-                    let u_def = (node
-                        .prevs()
-                        .clone()
-                        .into_iter()
-                        .filter(|x| visited.contains(x))
-                        .map(|x| x.u_def())
-                        .reduce(|acc, x| acc & x)
-                        .unwrap_or_default()
-                        - Register::caller_saved_set())
-                        | rets;
-
-                    // live_in[n] = (live_out[n] - caller-saved) U ecall_args U ecall_ins
-                    // ecall_args = X17 (a7) in every case U inputs to the ecall if known by available value analysis, otherwise empty
-                    let live_in = (node.live_out() - Register::caller_saved_set())
-                        | Register::ecall_always_argument_set()
-                        | args;
-                    changed |= node.set_live_in(live_in);
-                    changed |= node.set_u_def(u_def);
+                    (from_prevs - Register::caller_saved_set()) | rets
                 } else if node.is_return() {
-                    // live_in[n] = live_in[n] U gen[n]
-                    let live_in = node.live_in() | node.gen_reg();
-                    changed |= node.set_live_in(live_in);
-
                     // u_def[n] = AND u_def[s] for all s in prev[n]
-                    let u_def = node
-                        .prevs()
-                        .clone()
-                        .into_iter()
-                        .filter(|x| visited.contains(x))
-                        .map(|x| x.u_def())
-                        .reduce(|acc, x| acc & x)
-                        .unwrap_or_default();
-                    changed |= node.set_u_def(u_def);
+                    from_prevs
                 } else if node.is_function_entry() {
-                    // live_in[n] = gen[n] U (live_out[n] - kill[n])
-                    let live_in = (node.live_out() - node.kill_reg()) | node.gen_reg();
-
                     // u_def[n] = live_in[n] AND argument-registers
-                    let u_def = live_in & Register::argument_set();
-
-                    changed |= node.set_live_in(live_in);
-                    changed |= node.set_u_def(u_def);
+                    node.live_in() & Register::argument_set()
                 } else {
                     // u_def[n] = AND u_def[s] for all s in prev[n] | kill[n]
-                    let u_def = (node
-                        .prevs()
-                        .clone()
-                        .into_iter()
-                        .filter(|x| visited.contains(x))
-                        .map(|x| x.u_def())
-                        .reduce(|acc, x| acc & x)
-                        .unwrap_or_default())
-                        | node.kill_reg();
-
-                    // live_in[n] = gen[n] U (live_out[n] - kill[n])
-                    let live_in = (node.live_out() - node.kill_reg()) | node.gen_reg();
-
-                    changed |= node.set_live_in(live_in);
-                    changed |= node.set_u_def(u_def);
+                    from_prevs | node.kill_reg()
+                };
+                let u_def = if visited.contains(&node) {
+                    u_def & node.u_def()
+                } else {
+                    u_def
+                };
+                changed |= node.set_u_def(u_def);
+                changed |= visited.insert(Rc::clone(&node));
+            }
+            // What is still waiting can only be reached through itself (a
+            // loop in code nothing leads into): start it from one of its
+            // nodes with nothing defined, and go on.
+            if !changed {
+                if let Some(seed) = cfg.iter().find(|n| !visited.contains(n)) {
+                    seeds.insert(seed);
+                    changed = true;
                 }
-                visited.insert(node);
             }
         }
         Ok(())
